@@ -409,7 +409,9 @@ def cache_contracts(reg):
     def m_expand(ex, st, args, kwargs, node):
         bad = st.fork()
         ex.raise_in(bad, ex.mk_exc("ValueError"))
-        return [(st, ex.new_list(st, [VUnk(f"rk[{i}]") for i in range(2)]))]       # a fresh list of round keys
+        v = ex.new_list(st, [VUnk(f"rk[{i}]") for i in range(2)])       # a fresh list of round keys
+        st.ghost["expansions"] = tuple(st.ghost.get("expansions", ())) + ((args[0] if args else None, v.ref),)
+        return [(st, v)]
 
     reg.ext_models["C15.expand_key"] = m_expand
     expn = roles.get("key-expansion") or "_expand_key"
@@ -426,6 +428,17 @@ def cache_contracts(reg):
         looks = c.st.ghost.get("lookups", ())
         ok = all(any(k is l for l in looks) or any(k is c.args[a] for a in c.args) for (k, _v) in stores)
         return z3.BoolVal(bool(ok))
+
+    def stores_the_expansion_of_its_key(c):
+        """memo soundness of the round-key cache, symbolically (H3a was a dataflow reading): whatever a call stores under a key is
+        the object the (verified) key expansion returned FOR THAT VERY KEY in this call -- nothing older, nothing computed from
+        another argument or from module state."""
+        stores = c.st.ghost.get("cache_stores", ())
+        exps = c.st.ghost.get("expansions", ())
+        bad = [k for (k, v) in stores if not (isinstance(v, VRef) and any(a is k and r == v.ref for (a, r) in exps))]
+        if bad:
+            c.note = f"{len(bad)} store(s) of a value that is not the expansion of the key stored under"
+        return z3.BoolVal(not bad)
 
     def not_mutated(c, raising=False):
         m = c.st.ghost.get("published_mutated", ()) if c.st is not None else ()
@@ -446,7 +459,8 @@ def cache_contracts(reg):
     out.append(FnContract(
         target=f"{acc[0]}::{acc[1]}", params=[(p_, p_unk()) for p_ in acc_params],
         ensures=[("objects-held-by-the-cache-are-not-mutated", not_mutated),
-                 ("a-miss-stores-under-the-key-it-looked-up", stored_under_looked_up_key)],
+                 ("a-miss-stores-under-the-key-it-looked-up", stored_under_looked_up_key),
+                 ("what-a-miss-stores-is-the-expansion-of-that-key", stores_the_expansion_of_its_key)],
         raises=[Raises("ValueError", when=lambda c: not_mutated(c, True), label="only the key-length check of _expand_key, and nothing published was mutated before")],
         note="cache object abstract; the key expansion is applied by its verified contract (round 7: a list allocated by the call, or ValueError)",
     ))
@@ -897,12 +911,18 @@ def expansion_contract(reg, rel, name):
         ok = isinstance(k, VSeq)         # the three alternatives of concrete, valid length must not raise at all
         return z3.And(z3.BoolVal(ok), nothing_older_written(c))
 
+    def expansion_result(ex, st, ctx):
+        v = ex.new_list(st, [VUnk(f"rk[{i}]") for i in range(2)])
+        # ghost trace of expansions (argument, result) for the accessor's memo clause
+        st.ghost["expansions"] = tuple(st.ghost.get("expansions", ())) + ((ctx.args.get(key), v.ref),)
+        return v
+
     me = FnContract(
         target=f"{rel}::{name}", params=[(key, Maker(mk, desc="bytes of length 16 | 24 | 32 | any other length"))],
         ensures=[("result-is-a-list-allocated-by-this-call", fresh_result),
                  ("no-object-older-than-the-call-is-written", nothing_older_written)],
         raises=[Raises("ValueError", when=bad_length, label="exactly the key-length check; nothing written before")],
-        result_maker=lambda ex, st, ctx: ex.new_list(st, [VUnk(f"rk[{i}]") for i in range(2)]),
+        result_maker=expansion_result,
         note="verified on the real body (round 7); call-site view = a list allocated by the call or ValueError (the former assumed model)",
     )
     ROLE_OF[me.target] = "<key-expansion>"
